@@ -135,6 +135,8 @@ Definition style_quoted (s : N) : bool :=
 
 Section Fmt.
   Variable nonstr : string -> bool.
+  (* the value, read as an unquoted YAML 1.1 scalar, is of the OpenAPI type t (compatibility.go valueHasType) *)
+  Variable hastype : string -> string -> bool.
 
   (* yaml.FormatNonStringStyle(node, schema) on a scalar node *)
   Definition fmt_nonstring_tail (t : string) (h : hdr) : hdr :=
@@ -151,7 +153,9 @@ Section Fmt.
         else if String.eqb t "string" && negb (String.eqb format "int-or-string") then
                fmt_nonstring_tail t (if style_quoted (h_style h) then h else set_style h style_double)
         else if String.eqb t "boolean" || String.eqb t "integer" || String.eqb t "number" then
-               fmt_nonstring_tail t (if style_quoted (h_style h) then set_style h 0%N else h)
+               (* a value that is not of the schema's type is left exactly as written *)
+               if negb (hastype v t) then h
+               else fmt_nonstring_tail t (if style_quoted (h_style h) then set_style h 0%N else h)
         else h
     | _ => h
     end.
